@@ -1,7 +1,7 @@
 #!/bin/bash
 # runs the quick tier of every claimed check against /repo (regenerates every evidence file)
 cd "$(dirname "$0")/.."
-for id in C08 C06 C07 C16 C09 C20 C17 C15 C05 C19 C12 C10 C11 C04 C03 C01 C02; do
+for id in C08 C06 C07 C16 C09 C20 C17 C15 C05 C18 C19 C12 C10 C11 C14 C04 C03 C01 C02; do
   echo "##### $id quick ($(date +%T))"
   ( time ./vcheck run $id --tier quick --quiet ) 2>&1 | grep -v "^$\|^user\|^sys" | tail -6
 done
